@@ -636,7 +636,7 @@ class SystemManager:
                     self.execution_queue.insert(i, s)
                     break
             # Add to the end of queue if s has the lowest priority
-            if s not in self.execution_queue:
+            if not any(queued is s for queued in self.execution_queue):  # By identity: systems may define __eq__
                 self.execution_queue.append(s)
 
     @deprecated(reason='For not meeting standard python naming conventions. Use "add_system" instead.')
@@ -660,7 +660,8 @@ class SystemManager:
         if s_id not in self.systems.keys():
             raise SystemNotFoundError(s_id)
         else:
-            self.execution_queue.remove(self.systems[s_id])
+            s = self.systems[s_id]  # Taken out by identity: systems may define their own equality
+            self.execution_queue[:] = [queued for queued in self.execution_queue if queued is not s]
             del self.systems[s_id]
 
     @deprecated(reason='For not meeting standard python naming conventions. Use "remove_system" instead.')
